@@ -32,7 +32,10 @@ for pid in sorted(P.PROPS):
                     "stubs and cuts: %s" % (nq, len(p["harnesses"]), "; ".join(p.get("assumptions", [])))),
         technique="bounded symbolic model checking of the compiled Rust code (Kani -> CBMC -> SAT), harness oracles over kani::any() inputs, native concrete-playback replay of counterexamples",
     ))
+KNOWN_IDS = {json.loads(l)["id"] for l in open(os.path.join(VERIF, "properties.jsonl")) if l.strip()}
 for pid in sorted(P.PROPS):
+    if pid not in KNOWN_IDS:
+        continue
     if pid not in P.REGISTERED and pid not in {n["property_id"] for n in NA}:
         NA = NA + [dict(property_id=pid, reason="check under construction in this tree: harnesses exist but are not yet measured below the tier caps; not claimed until they are")]
 m = dict(
